@@ -276,7 +276,7 @@ func (j *Join) JoinMatchFunc(lk string, lv *map[string]any, l, r *HashedTable) (
 		if !ok {
 			return false, nil, INVALID_TYPE.Extend(fmt.Sprintf("failed to build `JOIN` expression, expected boolean but found %T", rsValue))
 		}
-		if rsValue || !j.joinType.IsInner() {
+		if rsValue {
 			b = true
 			if len(j.into) != 0 {
 				current := make(Map)
@@ -297,21 +297,24 @@ func (j *Join) JoinMatchFunc(lk string, lv *map[string]any, l, r *HashedTable) (
 				continue
 			}
 			for _, lr := range l.Rows[lk] {
-				if len(r.Rows) > 0 {
-					for _, rr := range r.Rows[rk] {
-						mapper := make(Map)
-						maps.Copy(mapper, (*lr).(Map))
-						maps.Copy(mapper, (*rr).(Map))
-						slice = append(slice, mapper)
-					}
-					continue
+				for _, rr := range r.Rows[rk] {
+					mapper := make(Map)
+					maps.Copy(mapper, (*lr).(Map))
+					maps.Copy(mapper, (*rr).(Map))
+					slice = append(slice, mapper)
 				}
-				mapper := make(Map)
-				maps.Copy(mapper, (*lr).(Map))
-				mapper[j.rightIdent] = nil
-				slice = append(slice, mapper)
 			}
 		}
+	}
+	if !b && !j.joinType.IsInner() && len(j.into) == 0 {
+		// an outer join keeps the rows no partner was found for, once, with the other side NULL
+		for _, lr := range l.Rows[lk] {
+			mapper := make(Map)
+			maps.Copy(mapper, (*lr).(Map))
+			mapper[j.rightIdent] = nil
+			slice = append(slice, mapper)
+		}
+		return true, slice, nil
 	}
 	return b, slice, nil
 }
